@@ -208,7 +208,7 @@ class _Monitor:
 # generator (uses a shadow of the statement only to aim requests at the limits)
 # --------------------------------------------------------------------------------------------
 
-TRAITS = ['a', 'b', 'c', 'd']
+TRAITS = ['a', 'b', 'c', 'd{v1}']      # any string up to 32 characters is a legal trait name
 BAD_QTY = ['10', '10GB', '-5%', '1.5G', '', 'G', '%', '5 %', '10g ', ' 7M', '1_0M', '+3G', '0x10M',
            '10T', '10B', '5%%', '1e3M', '\n5M', '5M\n\n', '٣', 'M5', '12K\x0b', '7％', 'ﬆ']
 UNIT_ALPH = list('0123456789') * 3 + list('KkMmGgTtBbPpEeZzYy%') * 2 + list(' \t\n\x1c\x0b+-_.xXsS') + \
